@@ -10,7 +10,8 @@
    edge, without and with a pepper; then random walks along the graph without restoring.
 3. code -> spec (method C): random operation sequences (length <= 60, 1..5 users, with/without pepper) on the
    real provider, logged, validated by TLC with Trace_Auth.tla (all invariants evaluated along the trace).
-4. self-test of the binding: one corrupted edge and one corrupted log record must be rejected."""
+3b. TLC evaluates TokenShape.tla on >= 1024 tokens issued by the real provider (structure, not randomness quality).
+4. self-test of the binding: one corrupted edge, one corrupted log record and two corrupted token sets must be rejected."""
 import concurrent.futures
 import json
 import os
@@ -89,11 +90,49 @@ def trace_verdict(ctx, t, records, what):
                   {"kind": "auth-trace-tlc", "violation": t.violation, "name": t.violated_name, "trace_tail": t.trace[-120:]})
     return 1
 
+def token_shape(auth, n, pepper, work, tag):
+    """Issues n tokens on the real provider, lets TLC (TokenShape.tla) judge their structure.
+    Returns (tlc result, token strings, parsed lines)."""
+    p = run_bin(auth, ["tokens", str(n), "1" if pepper else "0"])
+    recs = parse_jsonl(p.stdout)
+    if p.returncode != 0 or len(recs) != n:
+        raise vlib.ToolError("auth tokens failed rc=%s (%d of %d lines): %s" % (p.returncode, len(recs), n, p.stderr[-800:]))
+    return shape_verdict(recs, work, tag), recs
+
+
+def shape_verdict(recs, work, tag):
+    path = os.path.join(work, "tokens-%s-%d.ndjson" % (tag, os.getpid()))
+    vlib.write_lines(path, [{"d": r["d"]} for r in recs])
+    try:
+        return run_tlc("TokenShape.tla", "TokenShape.cfg", D, workers=1, env={"TOKENS": path}, timeout=600,
+                       work_id="c17-shape-" + tag)
+    finally:
+        os.remove(path)
+
+
+def shape_failure_text(t):
+    if t.prints:
+        f = t.prints[-1]
+        return "token structure: %s fails over %d tokens (%s)" % (
+            ", ".join(f.get("failed", [])), f.get("tokens", 0),
+            "; ".join("%s=%s" % (k, json.dumps(v)[:160]) for k, v in f.items() if k not in ("failed", "tokens")))
+    return "token structure: TLC reports %s %s" % (t.violation, t.violated_name or "")
+
 
 def do_replay(auth, path):
     """bin/check C17 --replay <file>: re-executes the stored operations on the real code and lets TLC judge."""
     obj = json.load(open(path))
     case = obj.get("case", obj)
+    if case.get("kind") == "auth-token-structure":
+        # issue the same number of tokens again on the current code and let TLC judge their structure
+        t, recs = token_shape(auth, max(256, len(case.get("tokens", []))), bool(case.get("pepper")), vlib.workdir("C17"), "replay")
+        vlib.log("  e.g. " + ", ".join(r["t"] for r in recs[:3]))
+        if t.violation:
+            print("VIOLATION property=C17 replay=%s" % path, flush=True)
+            vlib.log("  -> " + shape_failure_text(t))
+            return 1
+        vlib.log("replay: %d freshly issued tokens pass TokenShape.tla" % len(recs))
+        return 0
     ops = case.get("ops")
     if not ops:
         vlib.log("replay file has no operation list (kind=%s); run the full check instead" % case.get("kind"))
@@ -256,6 +295,25 @@ def run(tier, replay):
     ctx.sample({"history_excerpt": [{f: x[f] for f in ("op", "u", "pw", "life", "tok", "ck", "res", "ruid", "rtok", "c", "st")}
                                     for x in records[1:min(k, 13)]], "token_example": summ["sample_token"]})
 
+    # ---------------------------------------------------------------- 3b. structure of the issued tokens (TokenShape.tla)
+    # Not randomness quality: only defects no 256-bit uniform source can show (constant / narrow / duplicated digit
+    # positions, few byte values, repeats).  Each test fails with probability < 1e-30 on a correct tree (bounds in
+    # TokenShape.tla), so a failure is reported as a violation.
+    ntok = 4096 if thorough else 1024
+    shape_recs = None
+    for pepper in (False, True):
+        t, recs = token_shape(auth, ntok, pepper, work, "p%d" % pepper)
+        ctx.add_tlc("TokenShape: %d tokens issued by the real provider (pepper=%s)" % (ntok, pepper), t)
+        ctx.cov["evaluations"] += ntok
+        ctx.cov["traces_validated_against_impl"] += 1
+        ctx.add_part("token structure pepper=%s" % pepper, tokens=ntok, result="ok" if not t.violation else shape_failure_text(t),
+                     example=recs[0]["t"])
+        if t.violation:
+            ctx.violation(shape_failure_text(t) + "; e.g. " + ", ".join(r["t"] for r in recs[:3]),
+                          {"kind": "auth-token-structure", "pepper": pepper, "finding": t.prints[-1] if t.prints else None,
+                           "tokens": [r["t"] for r in recs]})
+        shape_recs = shape_recs or recs
+
     # ---------------------------------------------------------------- 4. self-test of the binding
     # (a) one expected result flipped in the edge list -> the harness must report exactly that edge
     sub = list(first_lines[:4000])
@@ -280,7 +338,16 @@ def run(tier, replay):
         ok = tc.violation == "invariant" and tc.prints and any(x["index"] == j + 1 for x in tc.prints[-1]["rejected"])
         if not ok:
             raise vlib.ToolError("binding self-test: a corrupted log record (%d) was not rejected by Trace_Auth" % (j + 1))
-    ctx.add_part("binding self-test", corrupted_edge_rejected=True, corrupted_log_record_rejected=j is not None)
+    # (c) the real tokens with the high digit of every byte overwritten by the low digit (an encoder writing one nibble
+    #     twice), and with one digit position forced to 7 -> TokenShape must reject both
+    for name, fn, expect in (("nibble twice", lambda d: [d[(i | 1)] for i in range(len(d))], "NoTwinPos"),
+                             ("constant position", lambda d: d[:10] + [7] + d[11:], "NoConstantPos")):
+        bad = [{"d": fn(list(r["d"]))} for r in shape_recs]
+        tb = shape_verdict(bad, work, "selftest")
+        if not (tb.violation == "invariant" and tb.prints and expect in tb.prints[-1].get("failed", [])):
+            raise vlib.ToolError("binding self-test: tokens corrupted by '%s' were not rejected by TokenShape (%s)" % (name, expect))
+    ctx.add_part("binding self-test", corrupted_edge_rejected=True, corrupted_log_record_rejected=j is not None,
+                 corrupted_token_sets_rejected=2)
 
     ctx.cov["rule"] = ("every edge (state, call, result, successor) of the complete TLC state graph of Auth.tla for the bound is executed on a "
                        "real AuthProvider restored to the real state reached for that spec state (breadth-first, snapshots of the Vec<User> "
@@ -292,7 +359,9 @@ def run(tier, replay):
     ctx.assumptions += [
         "abstraction: uid/token strings <-> integers by first appearance; a Tick subtracts 10^6 s from every stored expiry (Session::valid is now < expiry)",
         "the reference model (grant, refpw) in Auth.tla is the reading of the property text; LifeDefault/LifeRefresh/LifeLong = 1/2/3 units",
-        "randomness quality of tokens is NOT decided: only the format [0-9a-f]{64} and pairwise distinctness of all tokens issued in the run",
+        "randomness quality of tokens is NOT decided: only the format [0-9a-f]{64}, pairwise distinctness of all tokens issued in the run, "
+        "and gross structure over >=1024 tokens per pepper mode (TokenShape.tla: no constant digit position, >=8 distinct digits per position, "
+        "no two identical positions, >=64 distinct byte values); under a uniform 256-bit source each of these tests fails with probability < 1e-30",
         "the with_auth_route closure is taken from a real App (default sub-app handed over by a custom connection handler on loopback) and called in-process with requests parsed by Request::from_stream",
         "Argon2 itself is trusted; passwords are drawn from 5 families of 4 similar strings (empty, unicode, prefix pairs, 150 chars)",
     ]
